@@ -162,10 +162,13 @@ F64_PREFIX = ('core::f64::<impl f64>::', 'std::f64::<impl f64>::')
 
 
 class Interp:
-    def __init__(self, ctx, crate, input_iv=INPUT, max_depth=4):
+    def __init__(self, ctx, crate, input_iv=INPUT, max_depth=4, field_inputs=None):
         self.ctx = ctx
         self.crate = crate
         self.input = input_iv
+        # assumed ranges for fields read through references: {('bounds', '0'): Iv, ...} (assume-guarantee: the
+        # guarantee side is established separately, e.g. from the constructor)
+        self.field_inputs = field_inputs or {}
         self.max_depth = max_depth
         self._ret_cache = {}
         self.notes = []
@@ -199,6 +202,8 @@ class Interp:
             return st[k]
         # a whole-local copy of a tracked struct is handled by callers; unknown memory => input assumption
         if any(e == 'deref' for e in pl['p']) or pl['l'] <= body.arg_count:
+            if self.field_inputs and k[1:] in self.field_inputs:
+                return self.field_inputs[k[1:]]
             return self.input
         return st.get((pl['l'],), self.input if body.local_ty(pl['l']) in ('f64', '&f64') else TOP)
 
@@ -242,6 +247,8 @@ class Interp:
                 succs = self._switch(st, body, t)
             elif t['k'] == 'return':
                 for k, v in st.items():
+                    if not isinstance(k[0], int) or not isinstance(v, Iv):
+                        continue
                     if k[0] == 0:
                         kk = ('ret',) + k[1:]
                         ret[kk] = ret[kk].join(v) if kk in ret else v
@@ -302,6 +309,9 @@ class Interp:
                 if moved and sk not in st:
                     return
             v = self._op(st, body, o)
+            if src is not None and isinstance(v, Iv):
+                # remember where this scalar was copied from, so that a later comparison refines the source too
+                st[('alias',) + k] = self._key(src)
         elif kind == 'binop':
             a, b = self._op(st, body, rv['a']), self._op(st, body, rv['b'])
             op = rv['op']
@@ -339,17 +349,23 @@ class Interp:
             a = self._op(st, body, rv['op'])
             v = a if isinstance(a, Iv) else TOP
         elif kind == 'agg':
-            if rv['agg'] == 'adt':
-                names = rv.get('field_names', [])
+            if rv['agg'] in ('adt', 'tuple'):
+                names = rv.get('field_names', []) if rv['agg'] == 'adt' else []
                 for i, f in enumerate(rv['fields']):
+                    fname = names[i] if i < len(names) else str(i)
+                    src = f.get('copy') or f.get('move')
+                    nested = False
+                    if src is not None:
+                        sk = self._key(src)
+                        for kk in list(st.keys()):
+                            if kk[:len(sk)] == sk and len(kk) > len(sk) and isinstance(st[kk], Iv):
+                                st[k + (fname,) + kk[len(sk):]] = st[kk]
+                                nested = True
+                    if nested:
+                        continue
                     fv = self._op(st, body, f)
                     if isinstance(fv, Iv):
-                        st[k + ((names[i] if i < len(names) else str(i)),)] = fv
-            elif rv['agg'] == 'tuple':
-                for i, f in enumerate(rv['fields']):
-                    fv = self._op(st, body, f)
-                    if isinstance(fv, Iv):
-                        st[k + (str(i),)] = fv
+                        st[k + (fname,)] = fv
             return
         elif kind in ('ref', 'rawptr'):
             # a reference to a tracked scalar: alias its interval
@@ -389,16 +405,24 @@ class Interp:
         apl = a.get('copy') or a.get('move')
         bpl = b.get('copy') or b.get('move')
         # a comparison that holds excludes NaN on both sides (except Ne)
+        def put(pl, val):
+            if pl is None:
+                return
+            k = self._key(pl)
+            st[k] = val
+            src = st.get(('alias',) + k)
+            seen = 0
+            while isinstance(src, tuple) and seen < 4:
+                if isinstance(st.get(src), Iv) or src not in st:
+                    st[src] = val
+                src = st.get(('alias',) + src)
+                seen += 1
         if op in ('Lt', 'Le'):
-            if apl is not None:
-                st[self._key(apl)] = Iv(av.lo, min(av.hi, bv.hi), False)
-            if bpl is not None:
-                st[self._key(bpl)] = Iv(max(bv.lo, av.lo), bv.hi, False)
+            put(apl, Iv(av.lo, min(av.hi, bv.hi), False))
+            put(bpl, Iv(max(bv.lo, av.lo), bv.hi, False))
         elif op in ('Gt', 'Ge'):
-            if apl is not None:
-                st[self._key(apl)] = Iv(max(av.lo, bv.lo), av.hi, False)
-            if bpl is not None:
-                st[self._key(bpl)] = Iv(bv.lo, min(bv.hi, av.hi), False)
+            put(apl, Iv(max(av.lo, bv.lo), av.hi, False))
+            put(bpl, Iv(bv.lo, min(bv.hi, av.hi), False))
 
     def _call(self, st, body, fn, b, t, depth):
         f = t['func']
